@@ -116,7 +116,7 @@ func runC17(r *ev.Run) {
 		"fingerprint equality is asserted within a swarm kind only (p2pkeswarm SHAKE256 vs quicswarm SHA3-256 differ by design)",
 		"43-char in-alphabet texts with non-canonical trailing bits may be accepted or rejected",
 	}
-	nKeys := pick(r, 60000, 3000000)
+	nKeys := pick(r, 60000, 1500000)
 	g := rng.New(r.Seed, "C17", "keys", fmt.Sprint(r.Batch))
 	var prev *x509.PublicKey
 	for i := 0; i < nKeys; i++ {
@@ -278,7 +278,7 @@ func runC17PeerIDs(r *ev.Run) {
 	for i := 0; i < len(alpha); i++ {
 		inAlpha[alpha[i]] = true
 	}
-	n := pick(r, 150000, 6000000)
+	n := pick(r, 150000, 3000000)
 	g := rng.New(r.Seed, "C17", "peerid", fmt.Sprint(r.Batch))
 	var prevID p2p.PeerID
 	var prevText []byte
